@@ -81,7 +81,7 @@ def runOp (s : St) (op : Op) : St × Res :=
 
 def step (s : St) : List String → St × String
   | ["cfg", fe, mode] =>
-    if (fe == "shared" || fe == "any" || fe == "local" || fe == "localany") && (mode == "hot" || mode == "nohot-ctor" || mode == "nohot-src") then
+    if (fe == "shared" || fe == "any" || fe == "local" || fe == "localany") && (mode == "hot" || mode == "nohot-ctor" || mode == "nohot-src" || mode == "nohot-cfgfail") then
       ({ s with hasReloader := (fe == "shared" || fe == "any") && mode == "hot" }, "ok")
     else (s, "bad-op")
   | "src.put" :: id :: ext :: bytes :: _ =>
